@@ -380,7 +380,20 @@ def run(chk, thorough=False):
                 emit(rel, fline, '_Static_assert(__builtin_types_compatible_p(__typeof__(((%s*)0)->%s), %s), "@TAG@");'
                      % (ct, cname, sp), 'typeof(%s.%s)~%s' % (ct, cname, sp), 'abi.struct', sname, 'field%d:type' % i)
                 if fname != cname:
-                    chk.note('%s:%d field %d of %s is named %r in Python, %r in C (name only)' % (rel, fline, i, sname, fname, cname))
+                    cnames = [x[0] for x in cf]
+                    if fname in cnames:
+                        # the Python name exists in the C struct at another position: the two declarations list the fields in a
+                        # different order (a swap of same-typed fields is invisible to offsets/types but reads the wrong member)
+                        chk.instance(R_struct, '%s:%d %s.%s is field %d in Python but field %d in C' % (rel, fline, sname, fname, i, cnames.index(fname)), 'refuted')
+                        chk.violation(Finding('abi.struct', rel, sname, 'order:' + fname, '%s:%d' % (rel, fline),
+                                              'structure %s: Python declares `%s` at position %d, the C struct %s has `%s` there and `%s` at '
+                                              'position %d: the fields are not in the same order (Python reads the other member)' % (
+                                                  sname, fname, i, ct, cname, fname, cnames.index(fname)),
+                                              witness={'python_order': [f[0] for f in fields], 'c_order': cnames}))
+                    else:
+                        chk.note('%s:%d field %d of %s is named %r in Python, %r in C (renamed only: no C field of that name elsewhere)' % (rel, fline, i, sname, fname, cname))
+                else:
+                    chk.instance(R_struct, '%s:%d %s.%s same name at position %d' % (rel, fline, sname, fname, i))
     chk.extra['structures'] = nstruct
     chk.extra['struct_map'] = {'%s.%s' % k: v for k, v in structmap.items()}
 
